@@ -952,4 +952,39 @@ def appendMsgEnv (cfg : Conf) (x : Extra) (s : Node) (src term leaderCommit : Na
       (envExtra x s term, { s1 with commit := c }, .ok (envOuts s src ++ o1 ++ o2),
        { deadlineReset := true, storedTermVote := tv, storedCommit := some c })
 
+/-! ## kill + start of a journaled node (`SyncObj.__init__` on an existing journal file, then the first tick) -/
+
+/-- `votedFor` / `votesCount` after a restart: `__votedForNodeId` is read back from the journal's meta
+(`getTermAndVote`, repair D16: stored at once by `setTermAndVote`), `__votesCount = 0` -/
+def restartExtra (x : Extra) : Extra := { x with votes := 0 }
+
+/-- **A journaled node is killed and started again** (`dynamicMembershipChange = False`).
+`s` = the node before the kill: `s.log` = what the journal file holds (never empty for a node that has run: the
+constructor writes the initial NO_OP into an empty journal), `s.term` = `raftCurrentTerm` of the journal's meta
+(together with `votedFor`, see `restartExtra`), `s.self` / `s.members` = the constructor's arguments.
+`storedCommit` = `raftCommitIndex` of the journal's meta (`getRaftCommitIndex`: written by `onOneSecondTimer`, so an
+earlier value of the commit index, 1 if never written).  `dump` = the two entries `(data[2], data[1])` of the dump file,
+`none` = no dump file.
+
+`__init__`: FOLLOWER, leader None, `__raftLastApplied = 1`, `__raftNextIndex = {}`, `__raftMatchIndex = {}`, empty
+queue / waiting tables, `__noopIDx = __changeClusterIDx = None`, empty receive buffer, no connections yet.
+First `_onTick`, `__loadDumpFile(clearJournal=False)` (repairs D14/D60): when the journal holds the dump's two entries
+(`__getEntries(data[2][1], 2) == [data[2], data[1]]`) only the entries BEFORE them are dropped
+(`__deleteEntriesTo(data[2][1])`) — everything after the dump is KEPT; otherwise the journal is replaced by the two
+entries; `__raftLastApplied = data[1][1]`.  The commit index is not touched. -/
+def restartNode (s : Node) (storedCommit : Nat) (dump : Option (Entry × Entry)) : Node :=
+  let s0 : Node := { self := s.self, members := s.members, term := s.term, log := s.log, commit := storedCommit }
+  match dump with
+  | none => s0
+  | some (prevE, lastE) =>
+    let log1 : List Entry :=
+      match getEntries s.log (some prevE.idx) (some 2) none, firstIdx? s.log with
+      | some [a, b], some f => if a = prevE ∧ b = lastE then s.log.drop (prevE.idx - f) else s.log
+      | _, _ => s.log
+    let log2 : List Entry :=
+      match log1 with
+      | a :: b :: _ => if a = prevE ∧ b = lastE then log1 else [prevE, lastE]
+      | _ => [prevE, lastE]
+    { s0 with log := log2, lastApplied := lastE.idx }
+
 end PSO.NodeSend
